@@ -54,7 +54,26 @@ def build(repo=None):
                 ob["hints"] = hints
             obligations.append(ob)
 
-    token_loops = [x for x in fn.body if isinstance(x, ast.For)]
+    is_token_loop = lambda x: isinstance(x, ast.For) and ".split(" in ast.unparse(x.iter)  # by role: the loop over the pieces of the specification string
+    token_loops = [x for x in fn.body if is_token_loop(x)]
+    parse_fn = fn
+    if not token_loops:
+        # the token loop may have been moved into a private module-level helper called on the specification string: `dims, index_variadic = <helper>(dim_str)`
+        helpers = {b_.name: b_ for b_ in mod.tree.body if isinstance(b_, ast.FunctionDef)}
+        cand = [(a_, helpers[a_.value.func.id]) for a_ in fn.body if isinstance(a_, ast.Assign) and isinstance(a_.value, ast.Call) and isinstance(a_.value.func, ast.Name) and a_.value.func.id in helpers
+                and any(is_token_loop(x) for x in helpers[a_.value.func.id].body)]
+        if len(cand) == 1:
+            call_stmt, parse_fn = cand[0]
+            token_loops = [x for x in parse_fn.body if is_token_loop(x)]
+            hp = [a.arg for a in parse_fn.args.args]
+            rets = [r_ for r_ in ast.walk(parse_fn) if isinstance(r_, ast.Return)]
+            glue = (len(hp) == 1 and not parse_fn.decorator_list and len(call_stmt.value.args) == 1 and not call_stmt.value.keywords and ast.unparse(call_stmt.value.args[0]) == fn.args.args[1].arg
+                    and hp[0] == fn.args.args[1].arg  # the regions below read the specification under the parameter's own name
+                    and isinstance(call_stmt.targets[0], ast.Tuple) and [ast.unparse(t_) for t_ in call_stmt.targets[0].elts] == ["dims", "index_variadic"]
+                    and len(rets) == 1 and rets[0] is parse_fn.body[-1] and ast.unparse(rets[0].value).replace(" ", "") in ("(tuple(dims),index_variadic)", "tuple(dims),index_variadic")
+                    and fn.body.index(call_stmt) == 1)
+            obligations.append({"clause": "C14:the-parsing-helper-receives-the-specification-and-hands-back-(tuple(dims),index_variadic)-right-after-the-string-guard", "kind": "vc", "pc": [], "goal": z3.BoolVal(bool(glue)), "path": [], "meta": {"helper": z3.StringVal(parse_fn.name)}, "serves": ["C14", "C15", "C01"]})
+            functions.append({"qualname": "jaxtyping._array_types." + parse_fn.name, "sha256_16": mod.sha(parse_fn), "lines": [parse_fn.lineno, parse_fn.end_lineno]})
     if len(token_loops) != 1:
         raise Unsupported("_make_array_cached: expected exactly one top-level token loop")
     tloop = token_loops[0]
@@ -382,7 +401,11 @@ def build(repo=None):
                     continue
                 v = o.val
                 used = [c for c in calls]
-                eng.oblige(s1, "C14:getitem:constructor-gets-the-stripped-string-spec-and-this-category", z3.BoolVal(bool(used) and all(len(c) == 3 and isinstance(c[1], Z) and c[1].kind == "str" and c[2] is cls for c in used)))
+                shape_ok = bool(used) and all(len(c) == 3 and isinstance(c[1], Z) and c[1].kind == "str" and c[2] is cls for c in used)
+                # (this is also C20's rebuild step: x.dtype[x._subscript_item] calls _make_array(member, item[1].strip(), x.dtype) -- the very arguments of the original call)
+                eng.oblige(s1, "C14:getitem:constructor-gets-the-stripped-string-spec-and-this-category",
+                           z3.And(*[c[1].t == strip(getattr(Dyn, "str.s")(spec)) for c in used]) if shape_ok else z3.BoolVal(False))
+                s1.obl[-1]["serves"] = ["C14", "C15", "C20"]
                 if at_kind == "plain":
                     eng.oblige(s1, "C15:getitem:plain-array-type-is-made-directly", z3.BoolVal(used[-1][0] is at and v is made.get("plain-array-type")))
                 elif at_kind == "typevar-bound":
@@ -558,9 +581,17 @@ def build(repo=None):
                 eng.oblige(s1, f"C15:scalar:returns-a-bool[{o.kind}]", z3.BoolVal(False))
         collect(st.obl, ["C15"])
     # the scalar ladder returns the Python type itself / _not_made: executed for each scalar type, _check_scalar by its contract above
-    ladders = [s_ for s_ in fn.body if isinstance(s_, ast.If) and ast.unparse(s_.test).replace(" ", "") == "array_typeisbool"]
-    if len(ladders) != 1:
-        raise Unsupported("_make_array_cached: scalar ladder (`if array_type is bool: ...`) not found")
+    # the scalar section, by position: everything between the parsing of the specification (token loop / helper call, `dims = tuple(dims)`) and the nesting tail
+    tail_idx = [i_ for i_, s_ in enumerate(fn.body) if isinstance(s_, ast.If) and "issubclass(array_type, AbstractArray)" in ast.unparse(s_.test)]
+    parse_idx = [i_ for i_, s_ in enumerate(fn.body) if s_ is tloop or (parse_fn is not fn and isinstance(s_, ast.Assign) and isinstance(s_.value, ast.Call) and getattr(s_.value.func, "id", "") == parse_fn.name)]
+    if len(tail_idx) != 1 or len(parse_idx) != 1 or parse_idx[0] >= tail_idx[0]:
+        raise Unsupported("_make_array_cached: scalar section not found")
+    start = parse_idx[0] + 1
+    if isinstance(fn.body[start], ast.Assign) and ast.unparse(fn.body[start]).replace(" ", "") == "dims=tuple(dims)":
+        start += 1
+    scalar_section = fn.body[start:tail_idx[0]]
+    if not any("_check_scalar" in ast.unparse(s_) for s_ in scalar_section):
+        raise Unsupported("_make_array_cached: scalar ladder not found between the parser and the nesting tail")
     PREFIX_OF = {"bool": "bool", "int": "int", "float": "float", "complex": "complex", "np.bool_": "bool", "np.generic": "", "np.number": ""}
     consts = {k_: Opaque("sentinel:type:" + k_, z3.Const("type_" + k_.replace(".", "_"), U)) for k_ in PREFIX_OF}
     not_made_v = Opaque("sentinel:_not_made", z3.Const("not_made", U))
@@ -578,12 +609,13 @@ def build(repo=None):
             return [(s_, Z("bool", Survives))]
 
         eng.globals["_check_scalar"] = Fn("_check_scalar", model=m_cs)
+        eng.globals["get_origin"] = Fn("get_origin", model=lambda e, s_, a, kw, nd: [(s_, NONE)])  # a plain (non-generic) type: typing.get_origin gives None
         st = State()
         at_v = consts.get(tname) or Opaque("sentinel:type:other", z3.Const("type_other", U))
         dt_v, dm_v = Opaque("dtypes"), Opaque("dims")
         st.env = {"array_type": at_v, "dtypes": dt_v, "dims": dm_v}
         st.pc.append(z3.Distinct(*[c.t for c in consts.values()], z3.Const("type_other", U), not_made_v.t))
-        for s1, o in eng.run([ladders[0]], st):
+        for s1, o in eng.run(scalar_section, st):
             paths += 1
             if tname == "some-other-type":
                 eng.oblige(s1, "C15:scalar:only-the-scalar-types-take-the-scalar-path", z3.BoolVal(o.kind == "normal" and not seen_cs))
@@ -592,12 +624,65 @@ def build(repo=None):
             good = o.kind == "return" and called and (o.val is at_v or o.val is not_made_v)
             eng.oblige(s1, "C15:scalar:bool/int/float/complex-survive-as-the-Python-type-itself-or-are-not-made", z3.And(z3.BoolVal(bool(good)), Survives == z3.BoolVal(o.val is at_v)) if good else z3.BoolVal(False), scalar=z3.StringVal(tname))
         collect(st.obl, ["C15"])
-    # lazy aliases in __init__.py
+    # lazy aliases in __init__.py: the module-level __getattr__ is executed for each alias name; subscriptions are recorded structurally
     im = Module("jaxtyping/__init__.py", repo)
     ga = [n for n in ast.walk(im.tree) if isinstance(n, ast.FunctionDef) and n.name == "__getattr__"]
-    alias_src = ast.unparse(ga[-1]) if ga else ""
-    want_alias = ["return Shaped[jax.Array, '']", "return Shaped[ArrayLike, '']", "return Union[Key[jax.Array, ''], UInt32[jax.Array, '2']]"]
-    obligations.append({"clause": "C15:aliases:Scalar,ScalarLike,PRNGKeyArray-equal-their-documented-definitions", "kind": "vc", "pc": [], "goal": z3.BoolVal(all(w in alias_src for w in want_alias)), "path": [], "meta": {}, "serves": ["C15"]})
+    alias_ok, alias_found = bool(ga), {}
+    if ga:
+        gfn = ga[-1]
+        functions.append({"qualname": "jaxtyping.__getattr__", "sha256_16": im.sha(gfn), "lines": [gfn.lineno, gfn.end_lineno]})
+        want_alias = {"Scalar": "Shaped[jax.Array,'']", "ScalarLike": "Shaped[ArrayLike,'']", "PRNGKeyArray": "Union[Key[jax.Array,''],UInt32[jax.Array,'2']]"}
+
+        def show(v):
+            if isinstance(v, Opaque) and v.tag == "subscription":
+                return f"{show(v.attrs['of'])}[{','.join(show(x) for x in v.attrs['args'].items)}]"
+            if isinstance(v, Opaque):
+                return v.tag
+            if isinstance(v, Z) and v.kind == "str" and z3.is_string_value(z3.simplify(v.t)):
+                return "'" + z3.simplify(v.t).as_string() + "'"
+            if isinstance(v, Tup):
+                return ",".join(show(x) for x in v.items)
+            return "?"
+
+        for alias, want in want_alias.items():
+            eng = Engine(im)
+            jax_mod = Opaque("jax", attrs={"Array": Opaque("jax.Array"), "typing": Opaque("jax.typing", attrs={"ArrayLike": Opaque("ArrayLike"), "DTypeLike": Opaque("DTypeLike")}), "tree_util": Opaque("jax.tree_util")})
+
+            def m_import(e, s_, node, _jax=jax_mod):
+                s2 = s_.clone()
+                for a_ in node.names:
+                    if isinstance(node, ast.Import):
+                        s2.env[(a_.asname or a_.name).split(".")[0]] = _jax if a_.name.split(".")[0] == "jax" else Opaque("module:" + a_.name)
+                    else:
+                        # `from . import ArrayLike` goes through this very __getattr__: jax.typing.ArrayLike (the "ArrayLike" branch is checked to return it below)
+                        s2.env[a_.asname or a_.name] = Opaque(a_.name)
+                return [(s2, NORMAL)]
+
+            def m_sub(e, s_, v, args, kw, nd):
+                if isinstance(v, Opaque) and v.tag in ("Shaped", "Key", "UInt32", "Union"):
+                    a0 = args[0]
+                    return [(s_, Opaque("subscription", attrs={"of": v, "args": a0 if isinstance(a0, Tup) else Tup([a0])}))]
+                return None
+
+            eng.method_models.update({"__import__": m_import, "__getitem__": m_sub})
+            eng.globals.update({k_: Opaque(k_) for k_ in ("Shaped", "Key", "UInt32", "Union")})
+            st = State()
+            st.env = {gfn.args.args[0].arg: Z("str", S(alias))}
+            res = []
+            for s1, o in eng.run(gfn.body, st):
+                paths += 1
+                res.append(show(o.val) if o.kind == "return" else o.kind)
+            alias_found[alias] = res
+            alias_ok = alias_ok and res == [want]
+        # `from . import ArrayLike` resolves through the "ArrayLike" branch
+        eng = Engine(im)
+        eng.method_models["__import__"] = m_import
+        st = State()
+        st.env = {gfn.args.args[0].arg: Z("str", S("ArrayLike"))}
+        res = [show(o.val) if o.kind == "return" else o.kind for s1, o in eng.run(gfn.body, st)]
+        alias_found["ArrayLike"] = res
+        alias_ok = alias_ok and res == ["ArrayLike"]
+    obligations.append({"clause": "C15:aliases:Scalar,ScalarLike,PRNGKeyArray-equal-their-documented-definitions", "kind": "vc", "pc": [], "goal": z3.BoolVal(bool(alias_ok)), "path": [], "meta": {"found": z3.StringVal(str(alias_found))}, "serves": ["C15"]})
     obligations.append({"clause": "canary-struct:parser-paths", "kind": "canary", "pc": [], "goal": z3.BoolVal(paths == 0), "path": [], "meta": {}})
     return {"unit": NAME, "functions": functions, "obligations": obligations, "paths": paths, "stats": {},
             "assumptions": [
